@@ -163,6 +163,25 @@ func runC15(t *testing.T, c *choice.Stream, r *Result, opt RunOpt) {
 	}
 	decode("fresh", cd.New(), ref.B, rows)
 	{
+		// the same bytes inside a compressed frame, read through a Reader with
+		// compression enabled (as the client reads every Data packet)
+		method := []byte{refproto.MethodNone, refproto.MethodLZ4, refproto.MethodZSTD}[c.Draw("frame.method", 3)]
+		frame, err := refproto.EncodeFrame(method, ref.B)
+		if err != nil {
+			panic(err)
+		}
+		target := cd.New()
+		rd := proto.NewReader(&simio.FaultyReader{Data: frame})
+		rd.EnableCompression()
+		if err := target.DecodeColumn(rd, rows); err != nil {
+			line("DecodeColumn compressed-frame error: %v", err)
+		} else if got, rerr := gen.ReadAll(target, rt, target.Rows()); rerr != nil {
+			line("DecodeColumn compressed-frame unreadable: %v", rerr)
+		} else {
+			line("DecodeColumn compressed-frame rows=%d %s; equals values: %v", target.Rows(), shaHex([]byte(fmtVals(got))), reflect.DeepEqual(got, vals) || len(vals) == 0 && len(got) == 0)
+		}
+	}
+	{
 		used := cd.New()
 		if err := gen.Fill(used, rt, gen.Values(c.Sub("junk"), rt, c.Range("junk.n", 1, 9))); err != nil {
 			panic(err)
